@@ -955,6 +955,11 @@ def inline_stmt_calls(func, resolve, max_depth: int = 3):
                 if r is not None and r[0] is not func:
                     callee, recv = r
                     kind = _simple_callee(callee)
+                    if kind is None and isinstance(st, ast.Expr):
+                        # a procedure with guard clauses (`if not flag: return` .. statements): the same statements in if / else form
+                        c2 = _procedure_without_early_returns(callee)
+                        if c2 is not callee and _simple_callee(c2) == "stmts":
+                            callee, kind = c2, "stmts"
                     if kind == "expr":
                         e = inline_expr(callee, c, recv)
                         if e is not None:
